@@ -9,6 +9,8 @@ use crate::verif_models::fs as gfs;
 use crate::verif_models::fmtm;
 use bitcoin::hashes::{sha256d, Hash};
 
+// scripts hold one concrete byte: [measured] CBMC does not decide `ptr == end` for the dangling pointer of an
+// empty Vec, iterates arr_to_hex to the unwind bound over garbage bytes and formats each of them
 pub fn mk_block(n_tx: u8, n_in: u8, n_out: u8, with_addr: bool) -> Block {
     let z = sha256d::Hash::all_zeros();
     let header = BlockHeader { version: 1, prev_hash: z, merkle_root: z, timestamp: 0, bits: 0, nonce: 0 };
@@ -18,14 +20,14 @@ pub fn mk_block(n_tx: u8, n_in: u8, n_out: u8, with_addr: bool) -> Block {
         let mut inputs = Vec::new();
         let mut i = 0;
         while i < n_in {
-            inputs.push(TxInput { outpoint: TxOutpoint::new(z, i as u32), script_len: VarUint::from(0u8), script_sig: vec![], seq_no: 0 });
+            inputs.push(TxInput { outpoint: TxOutpoint::new(z, i as u32), script_len: VarUint::from(1u8), script_sig: vec![0xab], seq_no: 0 });
             i += 1;
         }
         let mut outputs = Vec::new();
         let mut o = 0;
         while o < n_out {
             let addr = if with_addr { Some(String::from("a")) } else { None };
-            outputs.push(EvaluatedTxOut { script: EvaluatedScript::new(addr, ScriptPattern::NotRecognised), out: TxOutput { value: o as u64, script_len: VarUint::from(0u8), script_pubkey: vec![] } });
+            outputs.push(EvaluatedTxOut { script: EvaluatedScript::new(addr, ScriptPattern::NotRecognised), out: TxOutput { value: o as u64, script_len: VarUint::from(1u8), script_pubkey: vec![0xcd] } });
             o += 1;
         }
         let mut h = [0u8; 32];
@@ -36,6 +38,10 @@ pub fn mk_block(n_tx: u8, n_in: u8, n_out: u8, with_addr: bool) -> Block {
     }
     Block { size: 0, header: Hashed { hash: z, value: header }, aux_pow_extension: None, tx_count: VarUint::from(n_tx), txs }
 }
+
+// the hex text of scripts is irrelevant to flush/rename ordering; [measured] CBMC iterates arr_to_hex's fold to
+// the unwind bound (it does not decide the slice iterator's `ptr == end`) and formats every byte
+fn stub_hex(_d: &[u8]) -> String { String::new() }
 
 fn mk_dump(cap: usize) -> CsvDump {
     let mk = |fd: usize| BufWriter::with_capacity(cap, gfs::File::ghost(fd));
@@ -51,7 +57,9 @@ fn mk_dump(cap: usize) -> CsvDump {
 macro_rules! flush_before_rename {
     ($name:ident, $blocks:expr, $k:expr, $fails_in_block:expr) => {
         #[kani::proof]
-        #[kani::unwind(14)]
+        #[kani::stub(std::io::Error::is_interrupted, crate::verif_models::fs::stub_not_interrupted)]
+        #[kani::stub(crate::common::utils::arr_to_hex, stub_hex)]
+#[kani::unwind(5)] // small on purpose: io::Error/Box<dyn Error> drop glue and Error::cause recurse through vtables; CBMC unrolls that recursion to the bound (exponential)
         fn $name() {
             unsafe {
                 fmtm::CONST_ROWS.v = true;
@@ -75,12 +83,10 @@ macro_rules! flush_before_rename {
                             assert!(gfs::RENAMES.v == 4, "C10:exit_0_implies_all_files_have_final_names");
                             assert!(cb.block_writer.buffer().is_empty() && cb.tx_writer.buffer().is_empty()
                                 && cb.txin_writer.buffer().is_empty() && cb.txout_writer.buffer().is_empty(), "C10:exit_0_implies_nothing_left_buffered");
-                            let mut f = 3;
-                            while f <= 6 {
-                                assert!(gfs::ACCEPTED.v[f] == gfs::SNAP_AT_FIRST_RENAME.v[f], "C10:no_bytes_written_after_the_first_rename");
-                                assert!(gfs::ACCEPTED.v[f] == 2 * $blocks, "C10:final_file_is_complete");
-                                f += 1;
-                            }
+                            // unrolled (no loop): keeps the unwind bound - which is also the recursion bound - minimal
+                            assert!(gfs::ACCEPTED.v[3] == gfs::SNAP_AT_FIRST_RENAME.v[3] && gfs::ACCEPTED.v[4] == gfs::SNAP_AT_FIRST_RENAME.v[4]
+                                && gfs::ACCEPTED.v[5] == gfs::SNAP_AT_FIRST_RENAME.v[5] && gfs::ACCEPTED.v[6] == gfs::SNAP_AT_FIRST_RENAME.v[6], "C10:no_bytes_written_after_the_first_rename");
+                            assert!(gfs::ACCEPTED.v[3] == 2 * $blocks && gfs::ACCEPTED.v[4] == 2 * $blocks && gfs::ACCEPTED.v[5] == 2 * $blocks && gfs::ACCEPTED.v[6] == 2 * $blocks, "C10:final_file_is_complete");
                         }
                         kani::cover!($k >= gfs::NSCHED, "fault-free run completes");
                     }
@@ -127,6 +133,65 @@ flush_before_rename!(c10_csv_3_f5, 3, 5, false);
 flush_before_rename!(c10_csv_3_f6, 3, 6, false);
 //@ id=C10 tier=thorough name=c10_csv_3_f7 timeout=900 role=flush_before_rename bound=CsvDump,3-block(s),buffer-4,write-call-7-fails fn=CsvDump::on_block,CsvDump::on_complete,BufWriter
 flush_before_rename!(c10_csv_3_f7, 3, 7, false);
+
+// Symbolic schedule: every subset of failing write calls (and, optionally, short writes), decided in one query.
+macro_rules! flush_sym {
+    ($name:ident, $blocks:expr, $short:expr) => {
+        #[kani::proof]
+        #[kani::stub(std::io::Error::is_interrupted, crate::verif_models::fs::stub_not_interrupted)]
+        #[kani::stub(crate::common::utils::arr_to_hex, stub_hex)]
+        #[kani::unwind(14)]
+        fn $name() {
+            unsafe {
+                fmtm::CONST_ROWS.v = true;
+                gfs::FAULT_AT.v = kani::any();
+                if $short { gfs::SHORT_AT.v = kani::any(); }
+            }
+            let mut cb = mk_dump(4);
+            let block = mk_block(1, 1, 1, false);
+            let mut ok = true;
+            let mut b = 0;
+            while b < $blocks && ok {
+                match cb.on_block(&block, b as u64) { Ok(()) => {}, Err(e) => { core::mem::forget(e); ok = false; } }
+                b += 1;
+            }
+            assert!(unsafe { gfs::RENAMES.v } == 0, "C10:no_final_name_before_completion");
+            if ok {
+                match cb.on_complete(($blocks - 1) as u64) {
+                    Ok(()) => {
+                        unsafe {
+                            assert!(!gfs::WRITE_FAILED.v, "C10:exit_0_implies_no_write_failed");
+                            assert!(gfs::RENAMES.v == 4, "C10:exit_0_implies_all_files_have_final_names");
+                            assert!(cb.block_writer.buffer().is_empty() && cb.tx_writer.buffer().is_empty()
+                                && cb.txin_writer.buffer().is_empty() && cb.txout_writer.buffer().is_empty(), "C10:exit_0_implies_nothing_left_buffered");
+                            // unrolled (no loop): keeps the unwind bound - which is also the recursion bound - minimal
+                            assert!(gfs::ACCEPTED.v[3] == gfs::SNAP_AT_FIRST_RENAME.v[3] && gfs::ACCEPTED.v[4] == gfs::SNAP_AT_FIRST_RENAME.v[4]
+                                && gfs::ACCEPTED.v[5] == gfs::SNAP_AT_FIRST_RENAME.v[5] && gfs::ACCEPTED.v[6] == gfs::SNAP_AT_FIRST_RENAME.v[6], "C10:no_bytes_written_after_the_first_rename");
+                            assert!(gfs::ACCEPTED.v[3] == 2 * $blocks && gfs::ACCEPTED.v[4] == 2 * $blocks && gfs::ACCEPTED.v[5] == 2 * $blocks && gfs::ACCEPTED.v[6] == 2 * $blocks, "C10:final_file_is_complete");
+                        }
+                        kani::cover!(unsafe { gfs::WRITE_CALLS.v } >= 4, "successful run");
+                    }
+                    Err(e) => {
+                        core::mem::forget(e);
+                        assert!(unsafe { gfs::WRITE_FAILED.v }, "C10:completion_fails_only_on_a_write_failure");
+                        assert!(unsafe { gfs::RENAMES.v } == 0, "C10:write_failure_leaves_no_final_named_file");
+                        kani::cover!(true, "write failed during completion (final flush)");
+                    }
+                }
+            } else {
+                kani::cover!(unsafe { gfs::WRITE_FAILED.v }, "write failed while processing a block");
+            }
+            core::mem::forget(cb);
+            core::mem::forget(block);
+        }
+    };
+}
+//@ id=C10 tier=quick name=c10_csv_sym_1 timeout=1500 role=flush_before_rename bound=CsvDump,1-block,buffer-4,SYMBOLIC-fault-schedule(any-subset-of-the-first-12-write-calls-fails) fn=CsvDump::on_block,CsvDump::on_complete,BufWriter
+flush_sym!(c10_csv_sym_1, 1, false);
+//@ id=C10 tier=quick name=c10_csv_sym_3 timeout=2400 role=flush_before_rename bound=CsvDump,3-blocks,buffer-4,SYMBOLIC-fault-schedule mem=20
+flush_sym!(c10_csv_sym_3, 3, false);
+//@ id=C10 tier=thorough name=c10_csv_sym_3_short timeout=5400 role=flush_before_rename bound=CsvDump,3-blocks,buffer-4,SYMBOLIC-faults-and-short-writes mem=24
+flush_sym!(c10_csv_sym_3_short, 3, true);
 
 // C02 names + C01 totals: real formatting, no faults
 //@ id=C02,C01 tier=thorough name=c02_csv_names timeout=5400 role=names bound=CsvDump,start/last-heights-from-{0,7,12,345}x{0,9,10,99999} mem=20 fn=CsvDump::on_start,CsvDump::on_complete
